@@ -15,11 +15,14 @@ Everything here judges the IMPLEMENTATION's record against the specification sid
                  actions enabled, I begins at the entry position of its rule.
                  Needs the invocation trace (control families 2/3 throughout the run); other logs go through the
                  hook-only subset (window, once, begin, end, veto -> F, accept -> O).
- sections()      C04_none_when_disabled / C04_lookahead_quiet: no A/Z/I/J at all when the run starts with
-                 apply_mode::nothing and the grammar has no enabler; children of at / not_at / disable nodes are
-                 entered with A=0; no action event below such a node unless an enabler lies in between.
- survivors()     ActionSpec.surv: transactional truncation over B/E frames (over S/O/F/U frames without trace).
- peg_acts()      ActionSpec.peg_acts / rule_wrap: reference PEG-with-actions interpreter over the generator's
+ sections()      C04_none_when_disabled / C04_lookahead_quiet / C04_section_entry_mode: no A/Z/I/J at all when the run
+                 starts with apply_mode::nothing and the grammar has no enabler; the sub-rule of an at / not_at /
+                 disable node is entered with A=0; no action event below such a node unless an enabler lies in between.
+ survivors()     ActionSpec.surv: transactional truncation over the B/E invocation frames (an invocation that returns
+                 false or is left by an exception takes everything invoked below it with it).  Only used on fully traced
+                 logs: hook-less internal rules (seq, at, ...) fail invisibly in a hook-only log.
+ peg_acts()      ActionSpec.peg_acts / rule_wrap (C04_reference_executable, C04_survivors_exact_partial): reference
+                 PEG-with-actions interpreter over the generator's
                  SURFACE term (never passes through the library), named rules carry the actions (families 7/8),
                  vetoes by the harness predicate; compared with survivors() and with the verdict / consumed bytes.
  eager vs lazy   positions in action events are identical in the eager and the lazy run of the same case."""
